@@ -5,7 +5,6 @@ from contracts.common import *  # noqa: F401,F403
 RQ = "cooler.core._rangequery"
 UT = "cooler.util"
 
-inline_ok(f"{RQ}:region_to_offset", f"{RQ}:region_to_extent")
 
 MAXCOORD = 2 ** 40   # magnitude bound that justifies FDIV64 (a + b < 2^53)
 
@@ -26,6 +25,7 @@ class RegionToExtent(Contract):
     one bin, the one containing its position."""
     target = f"{RQ}:_region_to_extent"
     props = ["C04"]
+    not_assumed = ("empty-range-at-chromosome-end-selects-nothing",)   # known finding: never assumed by callers
 
     def configs(self, v):
         def mk(fixed):
@@ -90,6 +90,7 @@ class RegionToExtent(Contract):
             "within-chromosome": And(off[c] <= lo, lo <= hi, hi <= off[c + 1]),
             "exactly-the-overlapping-bins": Implies(s < e, forall(off[c], off[c + 1], lambda k: Iff(
                 And(lo <= k, k < hi), And(start[k] < e, end[k] > s)))),
+            "nonempty-range-starts-in-its-first-bin": Implies(s < e, And(lo < hi, start[lo] <= s, s < end[lo])),
             "empty-range-at-most-one-bin": Implies(s == e, hi - lo <= 1),
             "empty-range-bin-contains-position": Implies(And(s == e, hi - lo == 1, s < end[off[c + 1] - 1]),
                                                          And(start[lo] <= s, s < end[lo])),
@@ -209,3 +210,149 @@ class ParseRegionString(Contract):
         en = v.Int("prs.end")
         v.assume(en >= st)
         return (chrom, st, en)
+
+
+@contract
+class RegionToExtentTuple(RegionToExtent):
+    """region_to_extent: the two values of _region_to_extent as a tuple (checked against the callee's contract)"""
+    target = f"{RQ}:region_to_extent"
+    props = ["C04"]
+
+    def result(self, v, **a):
+        return (v.Int("ext.lo"), v.Int("ext.hi"))
+
+    def ensures(self, result, h5, chrom_ids, region, binsize):
+        out = {"is-a-pair": isinstance(result, tuple) and len(result) == 2}
+        if not out["is-a-pair"]:
+            return out
+        ens = RegionToExtent.ensures(self, list(result), h5, chrom_ids, region, binsize)
+        out.update({k: c for k, c in ens.items() if not k.startswith("hint:") and k not in self.not_assumed})
+        return out
+
+
+@contract
+class RegionToOffset(RegionToExtent):
+    """region_to_offset: the first bin of the extent (for a non-empty range: the first overlapping bin)"""
+    target = f"{RQ}:region_to_offset"
+    props = ["C04"]
+
+    def result(self, v, **a):
+        return v.Int("ext.lo")
+
+    def ensures(self, result, h5, chrom_ids, region, binsize):
+        off, start, end, c, s, e = self._parts(h5, chrom_ids, region)
+        lo = result
+        return {
+            "within-chromosome": And(off[c] <= lo, lo <= off[c + 1]),
+            "first-overlapping-bin": Implies(s < e, And(lo < off[c + 1], start[lo] <= s, s < end[lo], forall(
+                off[c], lo, lambda k: Not(And(start[k] < e, end[k] > s))))),
+        }
+
+
+API = "cooler.api"
+
+
+class _H5Ctx:
+    """open_hdf5(store, **kws) as h5: h5[root] is the collection's group"""
+
+    def __init__(self, root, grp):
+        self.root, self.grp = root, grp
+
+    def pyvc_enter(self, I):
+        return {self.root: self.grp}
+
+    def pyvc_exit(self, I, exc):
+        return None
+
+
+def _cooler_configs(v_unused):
+    from pyvc.values import LibFunc
+
+    def mk(fixed, sn, en):
+        def f(v):
+            nchrom, off, start, end, clen = mk_bintable(v, fixed)
+            has = v.Fn("chromids.has", z3.StringSort(), z3.BoolSort())
+            cid = v.Fn("chromids.id", z3.StringSort(), z3.IntSort())
+            shas = v.Fn("chromsizes.has", z3.StringSort(), z3.BoolSort())
+            slen = v.Fn("chromsizes.len", z3.StringSort(), z3.IntSort())
+            chrom = v.Str("chrom")
+            grp = {"indexes": {"chrom_offset": off}, "bins": {"start": start, "end": end}}
+            binsize = v.Int("binsize") if fixed else None
+            ids = SymMap(lambda k: has(k), lambda k: cid(k), "chrom_ids")
+            sizes = SymMap(lambda k: shas(k), lambda k: slen(k), "chromsizes")
+            slf = v.Obj("Cooler", API, store=Opaque("store"), open_kws={}, root="/", _chromids=ids, _chromsizes=sizes,
+                        _info={"bin-size": binsize, "nbins": start.n})
+            region = (chrom, None if sn else v.Int("s"), None if en else v.Int("e"))
+            return dict(self=slf, region=region,
+                        __free__={"open_hdf5": LibFunc("open_hdf5", lambda I, *a, **k: _H5Ctx("/", grp))},
+                        __ghost__={"clen": clen, "nchrom": nchrom, "grp": grp, "binsize": binsize,
+                                   # flat copies for concretisation at replay
+                                   "off": off, "start": start, "end": end, "c": cid(chrom), "known": has(chrom)})
+        return f
+    for fixed in (True, False):
+        for sn in (False, True):
+            for en in (False, True):
+                yield (f"{'fixed' if fixed else 'variable'},start={'None' if sn else 'int'},end={'None' if en else 'int'}",
+                       mk(fixed, sn, en))
+
+
+class _CoolerRegionBase(RegionToExtent):
+    """Cooler.extent / Cooler.offset: parse_region against the cached chromosome lengths, then the extent
+    mapping on the collection's group with the recorded bin size.  Preconditions are the representation
+    invariant of a Cooler object for the chromosome named (cached ids / lengths agree with the stored table;
+    the recorded bin size, when not None, describes the bins: what C20's get_binsize contract establishes
+    at creation time)."""
+    props = ["C04"]
+
+    def configs(self, v):
+        return _cooler_configs(v)
+
+    def _resolve(self, self_, region):
+        ids, sizes = self_.attrs["_chromids"], self_.attrs["_chromsizes"]
+        chrom, s, e = region
+        s2 = 0 if s is None else s
+        e2 = sizes.get(chrom) if e is None else e
+        return ids, sizes, chrom, s2, e2
+
+    def requires(self, self_, region):
+        g = self._ghost()
+        ids, sizes, chrom, s2, e2 = self._resolve(self_, region)
+        clen, nchrom, grp, binsize = g["clen"], g["nchrom"], g["grp"], g["binsize"]
+        off, start, end = grp["indexes"]["chrom_offset"], grp["bins"]["start"], grp["bins"]["end"]
+        c = ids.get(chrom)
+        r = [Iff(sizes.has(chrom), ids.has(chrom)),
+             Implies(ids.has(chrom), And(0 <= c, c < nchrom, sizes.get(chrom) == clen[c],
+                                         valid_bins_at(off, start, end, clen, c), clen[c] < MAXCOORD)),
+             L(off) == nchrom + 1, L(clen) == nchrom]
+        if binsize is not None:
+            r += [Implies(ids.has(chrom), fixed_bins_at(off, start, end, clen, c, binsize)), binsize < MAXCOORD, binsize > 0]
+        return r
+
+    def _bad(self, self_, region):
+        ids, sizes, chrom, s2, e2 = self._resolve(self_, region)
+        return Or(Not(sizes.has(chrom)), e2 < s2, s2 < 0, e2 > sizes.get(chrom))
+
+    @property
+    def raises(self):
+        return {"ValueError": lambda self_=None, region=None: self._bad(self_, region)}
+
+    def _callee_args(self, self_, region):
+        g = self._ghost()
+        ids, sizes, chrom, s2, e2 = self._resolve(self_, region)
+        return g["grp"], ids, (chrom, s2, e2), g["binsize"]
+
+
+@contract
+class CoolerExtent(_CoolerRegionBase):
+    target = f"{API}:Cooler.extent"
+
+    def ensures(self, result, self_, region):
+        return RegionToExtentTuple.ensures(self, result, *self._callee_args(self_, region))
+
+
+@contract
+class CoolerOffset(_CoolerRegionBase):
+    target = f"{API}:Cooler.offset"
+
+    def ensures(self, result, self_, region):
+        return RegionToOffset.ensures(self, result, *self._callee_args(self_, region))
